@@ -21,7 +21,11 @@ Tables ==
    rookfile |-> [q \in 1..64 |-> CrIdx(RookFileRights(q - 1))],
    kingside |-> [i \in 1..2 |-> KingsideSquares(IF i = 1 THEN "w" ELSE "b")],
    queenside |-> [i \in 1..2 |-> QueensideSquares(IF i = 1 THEN "w" ELSE "b")],
-   castledest |-> CastleDestinations]
+   castledest |-> CastleDestinations,
+   ranknames |-> RankNamesV, filenames |-> FileNamesV, sqnames |-> [q \in 1..64 |-> SquareName(q - 1)],
+   notarank |-> NotARank, notafile |-> NotAFile,
+   bbtext |-> [q \in 1..64 |-> BitBoardText({q - 1})],
+   bbtextsets |-> {<<S, BitBoardText(S)>> : S \in {{}, Squares, RankSet(0), FileSet(7), {0, 9, 18, 27, 36, 45, 54, 63}, KnightT[27], Edges}}]
 
 Promos == <<"-", "p", "n", "b", "r", "q", "k">>
 (* all moves from source f to a fixed stride of destinations and promotions, compared with all of the same from f2 *)
